@@ -415,6 +415,10 @@ func (e *Engine) execInstr(f *frame, b *ssa.BasicBlock, in ssa.Instruction, st *
 		}
 		ref := e.newRef(st)
 		f.vals[x] = Val{Typ: x.Type(), Terms: []*smt.Term{ref}, Fn: fn, Binds: binds}
+		if e.Share != nil {
+			// what the closure may write through its captured variables must be writable here
+			e.shareBinds(st, fn, binds, pos)
+		}
 	case *ssa.MapUpdate:
 		e.mapUpdate(f, st, x, pos)
 	case *ssa.Range:
